@@ -114,6 +114,14 @@ func (c *Ctx) loopWrites(fr *Frame, li *loopInfo) (cells map[interface{}]bool, f
 			}
 		}
 	}
+	// ghosts assigned by `after call ... set` clauses (any call of the loop may be the one: over-approximated)
+	if fr.fc != nil {
+		for _, cl := range fr.fc.Clauses {
+			if cl.Kind == "aftercallset" {
+				whole["G_"+cl.Label] = true
+			}
+		}
+	}
 	for b := range li.body {
 		for _, in := range b.Instrs {
 			switch x := in.(type) {
